@@ -15,7 +15,7 @@ def step (st : State) (line : String) : State × String :=
      | some (sc, _) => ({ st with schema := sc }, "ok types=" ++ toString sc.types.length)
      | none => (st, "bad-args typ.schema"))
   | some (name, rest) =>
-    if name.startsWith "conc." then (st, "ok")
+    if name.startsWith "conc." || name.startsWith "iso." then (st, "ok")
     else if name.startsWith "upd." then
       match stepUpd st name rest with
       | some r => r
